@@ -25,6 +25,12 @@ var ZZEntries = map[string]func([]int){
 	"HMAC":    func(a []int) { HMAC(a[0], a[1]) },
 	"HAddr4":  func(a []int) { HAddr4() },
 	"HUnix":   func(a []int) { HUnix(a[0], a[1], a[2]) },
+	"HCDateDec":     func(a []int) { HCDateDec() },
+	"HCTimeDec":     func(a []int) { HCTimeDec() },
+	"HCDateTimeDec": func(a []int) { HCDateTimeDec(a[0]) },
+	"HCDate":        func(a []int) { HCDate(a[0], a[1]) },
+	"HCDateTime":    func(a []int) { HCDateTime(a[0], a[1]) },
+	"HCTime":        func(a []int) { HCTime() },
 }
 
 // decimal syntax: -?(0|[1-9][0-9]*)
